@@ -67,6 +67,13 @@ fn generate(rng: &mut Rng) -> ConnScenario {
             client.login_think_ns.push(if rng.chance(1, 2) { secs(rng.range(0, 40)) + OFF_THINK } else { 0 });
         }
     }
+    // a client that pipelines Login Acknowledged behind its Encryption Response (same read) while the
+    // authentication takes several periods: the keep-alive clock must not have run up a debt meanwhile
+    if rng.chance(1, 8) {
+        client.early_ack = true;
+        client.coalesce = true;
+        client.ack_delay_ns = 0;
+    }
     let style = rng.below(5);
     let pol = |rng: &mut Rng| -> KaPolicy {
         match rng.below(12) {
@@ -159,7 +166,7 @@ pub fn check(sc: &ConnScenario, out: &ConnOutcome, rep: &mut RunReport) {
     let mut ticks: Vec<(u64, bool, u64)> = vec![]; // (time, is_timeout, id)
     for p in &out.view.packets {
         if p.kind == "KeepAlive" {
-            if p.t_ns < t_ack {
+            if p.t_ns < t_ack.max(t_ls.unwrap_or(0)) {
                 rep.violate("no_keep_alive_before_configuration", format!("Keep Alive at {} ns, Login Acknowledged at {} ns", p.t_ns, t_ack));
             }
             ticks.push((p.t_ns, false, p.fields["id"].as_u64().unwrap_or(0)));
@@ -168,7 +175,9 @@ pub fn check(sc: &ConnScenario, out: &ConnOutcome, rep: &mut RunReport) {
         }
     }
     let end_t = end.map(|p| p.t_ns).or(out.done_ns).unwrap_or(out.end_ns);
-    // (a) at least every 16 s from Login Acknowledged to the end
+    // (a) at least every 16 s from Login Acknowledged (or Login Success, if the client acknowledged it
+    // ahead of time) to the end
+    let t_ack = t_ack.max(t_ls.unwrap_or(0));
     let mut prev = t_ack;
     for (t, _, _) in &ticks {
         if *t > prev && t - prev > PERIOD {
@@ -195,6 +204,9 @@ pub fn check(sc: &ConnScenario, out: &ConnOutcome, rep: &mut RunReport) {
             break;
         }
         let echoed = echoes.iter().any(|(et, eid)| *eid == pid && *et >= pt && *et < t);
+        if is_timeout && t == pt {
+            rep.violate("prompt_client_never_dropped", format!("the timeout Disconnect was written at {t} ns, the very instant Keep Alive {pid:#x} was sent: no client can echo in no time"));
+        }
         if echoed && is_timeout {
             rep.violate("prompt_client_never_dropped", format!("Keep Alive {pid:#x} sent at {pt} was echoed before {t}, yet the client was timed out at {t}"));
         }
@@ -221,6 +233,8 @@ pub fn check(sc: &ConnScenario, out: &ConnOutcome, rep: &mut RunReport) {
     let Some(t_info) = t_info else {
         return;
     };
+    // (a client that pipelines sends Client Information before the configuration phase exists)
+    let t_info = t_info.max(t_ls.unwrap_or(0));
     let l = |s: &Option<u64>| s.unwrap_or(0);
     let want_end = t_info + l(&sc.services.discovery.default.lat_ns) + l(&sc.services.filter.default.lat_ns) + l(&sc.services.strategy.default.lat_ns);
     // an unechoed keep-alive that has not reached its next tick yet is fine; but the connection must end at want_end
@@ -279,7 +293,7 @@ impl Check for C07 {
         generate(rng)
     }
     fn execute(&self, sc: &ConnScenario) -> RunReport {
-        if !conn_domain_ok(sc) || sc.cap_ns < secs(600) || sc.client.script.is_some() || !sc.client.mutations.is_empty() || !sc.client.cuts.is_empty() || !sc.wplan.is_empty() || !matches!(sc.client.enc, crate::client::EncVariant::Honest) {
+        if !conn_domain_ok(sc) || sc.cap_ns < secs(600) || sc.client.script.is_some() || !sc.client.mutations.is_empty() || !sc.client.cuts.is_empty() || !sc.wplan.is_empty() || sc.client.len_pad != 0 || (sc.client.coalesce && !sc.client.early_ack) || !matches!(sc.client.enc, crate::client::EncVariant::Honest) {
             return RunReport::default();
         }
         // tie-freedom is part of the domain: every delay must keep its millisecond offset class
@@ -318,6 +332,9 @@ impl Check for C07 {
         }
         if !c.extras.is_empty() {
             *rep.faults.entry("unsolicited_keep_alive".into()).or_insert(0) += 1;
+        }
+        if c.early_ack {
+            *rep.faults.entry("login_acknowledged_pipelined_behind_encryption_response".into()).or_insert(0) += 1;
         }
         if c.login_think_ns.iter().any(|t| *t >= PERIOD) {
             *rep.faults.entry("client_slow_in_login_phase_beyond_a_period".into()).or_insert(0) += 1;
